@@ -310,6 +310,22 @@ func buildContainer(t tableCase, router string, order [][2]int, cell **obsCell) 
 	return c, ""
 }
 
+// builtOffQualifies: templates for which declaring them under either strategy gives the same route table (no root or route
+// path with a trailing slash, which path.Join would clean away)
+func builtOffQualifies(t tableCase) bool {
+	for _, s := range t.Services {
+		if len(s.Root) > 1 && strings.HasSuffix(s.Root, "/") {
+			return false
+		}
+		for _, rt := range s.Routes {
+			if strings.HasSuffix(rt.P, "/") || strings.Contains(rt.P, "//") || strings.Contains(s.Root, "//") || !strings.HasPrefix(rt.P, "/") {
+				return false
+			}
+		}
+	}
+	return true
+}
+
 // serviceOrder: the WebService indices (1-based) of a registration order, in order of first appearance
 func serviceOrder(order [][2]int) []int {
 	seq := []int{}
@@ -549,6 +565,16 @@ func runRoute(planPath, outPath string, seed int64) {
 			}
 		}
 		holdBack, dynamicTables = false, false
+		if p.Slash && builtOffQualifies(t) {
+			// the table was declared while the trailing-slash switch was off (another part of the program, or a test, had
+			// it so) and is served with the default strategy: variant 90 of the default router
+			restful.TrimRightSlashEnabled = false
+			c90, ap := buildContainer(t, "curly", orders[0], &cell)
+			restful.TrimRightSlashEnabled = true
+			if ap == "" {
+				variants = append(variants, builtVariant{"curly", 90, c90})
+			}
+		}
 		restful.DefaultRequestContentType(p.DefReqCT)
 		if p.Late {
 			// one spelling of every request (alternating) is served by the incomplete table, then the held
